@@ -112,7 +112,7 @@ def gen_input_value(draw, spec, t, depth=0, boundary=False, allow_null=True):
         return draw(st.booleans())
     k = spec.kind(n)
     if k == "scalar":
-        return draw(st.sampled_from(["1.50", "s", ""]))
+        return draw(st.sampled_from(["1.50", "s", "", 3, 1.5, True]))
     if k == "enum":
         return {"__enum__": draw(st.sampled_from([v["name"] for v in spec["types"][n]["values"]]))}
     if k == "input":
@@ -453,7 +453,8 @@ def build_code(spec, resolvers=None, order=None):
     for n, t in spec["types"].items():
         k = t["kind"]
         if k == "scalar":
-            built[n] = S.ScalarType(n, serialize=lambda x: x, parse=lambda x: x, description=t.get("desc"))
+            from py_gql.schema.scalars import default_scalar
+            built[n] = default_scalar(n, description=t.get("desc"))
         elif k == "enum":
             built[n] = S.EnumType(n, [S.EnumValue(v["name"], v["value"], description=v.get("desc"),
                                                   deprecation_reason=(v.get("deprecated") if v.get("deprecated") != "" else "No longer supported"))
